@@ -49,9 +49,10 @@ theorem convert_channel_src_eq_model (F T v : Nat) (hF : IsU8 F) (hT : IsU8 T) (
   have h5 : T * 2 ^ 24 % 2 ^ 32 = T * 2 ^ 24 := Nat.mod_eq_of_lt (by omega)
   simp only [h1, h2, h3, h4, h5]
   generalize v * (T * 2 ^ 24 / F) = a
-  split
-  · omega
-  · rfl
+  by_cases h : T = F
+  · simp [h]
+  · simp only [h, ne_eq, not_false_eq_true, ↓reduceIte]
+    omega
 
 example : IsU8 31 ∧ IsU8 255 ∧ IsU8 17 ∧ ColorSrc.convert_channel 31 255 17 = 140 := by decide
 
